@@ -280,6 +280,23 @@ class ISD(model.Document):
 
       content_interval = [None, 0]
 
+      if len(doc_regions) == 0 and doc.has_initial_value(styles.StyleProperties.BackgroundColor):
+        # the default region takes its style properties from the initial values of the document: its background may be visible
+        # at any time, from the start
+        default_region = model.Region(ISD.DEFAULT_REGION_ID, doc)
+        for style_prop in (
+            styles.StyleProperties.BackgroundColor,
+            styles.StyleProperties.Display,
+            styles.StyleProperties.Opacity,
+            styles.StyleProperties.ShowBackground,
+            styles.StyleProperties.Visibility
+          ):
+          if doc.has_initial_value(style_prop):
+            default_region.set_style(style_prop, doc.get_initial_value(style_prop))
+        if ISD._region_always_has_background(default_region):
+          content_interval = [Fraction(0), None]
+          s_times.add(Fraction(0))
+
       # add significant times for regions
 
       for region in cached_doc.iter_regions():
